@@ -29,6 +29,13 @@ let () =
             | "hs" -> J_hs.run rest obs, J_hs.oracle rest obs
             | _ -> "JUDGE-UNKNOWN-COMPONENT", []
           with e -> "JUDGE-EXN " ^ Printexc.to_string e, []) in
+        (* generic observations of the harness: a panic (caught by catch_unwind) or a case that did not return within the
+           watchdog's limit are violations of C03 / C19 whatever the component *)
+        let contains sub str =
+          let n = String.length sub and m = String.length str in
+          let rec go i = i + n <= m && (String.sub str i n = sub || go (i + 1)) in go 0 in
+        let orc = orc @ (if contains "PANIC" obs then ["C03.never_panics", false] else [])
+                      @ (if contains "HANG" obs then ["C03.never_hangs", false; "C19.never_hangs", false] else []) in
         if model_obs <> obs then begin
           incr diffs;
           Printf.printf "DIFF\t%s\timpl=%s\tmodel=%s\n" case obs model_obs
